@@ -44,6 +44,22 @@ type tr struct {
 	errs []string
 	// names of package-level functions translated in this area (calls to them become Lean calls)
 	known map[string]string
+	// helper functions translated on demand (helperFunc): their text, emitted before the function that called them
+	aux         []string
+	auxNames    []string
+	translating map[string]bool
+	// round: "float64 reading" — the result of every float operation (+ - * /, math.Sqrt, int -> float conversion) is wrapped
+	// in `fl`, a rounding function that the emitted definition takes as its first parameter (used by area schedule only;
+	// false everywhere else, so nothing changes for other areas)
+	round bool
+}
+
+// rnd wraps a float-valued operation in the rounding function when the float64 reading is being emitted.
+func (t *tr) rnd(e ast.Expr, s string) string {
+	if t.round && isFloat(t.pkg.TypesInfo.TypeOf(e)) {
+		return "(fl " + s + ")"
+	}
+	return s
 }
 
 func (t *tr) fail(n ast.Node, format string, a ...any) string {
@@ -121,6 +137,9 @@ func (t *tr) constLit(tv types.TypeAndValue, at ast.Node) (string, bool) {
 		if den.ExactString() == "1" {
 			return "(" + num.ExactString() + " : ℝ)", true
 		}
+		if t.round {
+			return "(fl ((" + num.ExactString() + " : ℝ) / " + den.ExactString() + "))", true
+		}
 		return "((" + num.ExactString() + " : ℝ) / " + den.ExactString() + ")", true
 	case isInt(tv.Type):
 		v := constant.ToInt(tv.Value)
@@ -164,16 +183,16 @@ func (t *tr) expr(e ast.Expr) string {
 		ty := info.TypeOf(x.X)
 		switch x.Op {
 		case token.ADD:
-			return "(" + l + " + " + r + ")"
+			return t.rnd(e, "("+l+" + "+r+")")
 		case token.SUB:
-			return "(" + l + " - " + r + ")"
+			return t.rnd(e, "("+l+" - "+r+")")
 		case token.MUL:
-			return "(" + l + " * " + r + ")"
+			return t.rnd(e, "("+l+" * "+r+")")
 		case token.QUO:
 			if isInt(info.TypeOf(e)) {
 				return "(Go.tdiv " + l + " " + r + ")"
 			}
-			return "(" + l + " / " + r + ")"
+			return t.rnd(e, "("+l+" / "+r+")")
 		case token.REM:
 			if isInt(info.TypeOf(e)) {
 				return "(Go.tmod " + l + " " + r + ")"
@@ -208,7 +227,7 @@ func (t *tr) expr(e ast.Expr) string {
 			a := t.expr(x.Args[0])
 			switch {
 			case isFloat(dst) && isInt(src):
-				return "((" + a + " : ℤ) : ℝ)"
+				return t.rnd(e, "(("+a+" : ℤ) : ℝ)")
 			case isInt(dst) && isFloat(src):
 				return "(Go.f2i " + a + ")"
 			case isInt(dst) && isInt(src), isFloat(dst) && isFloat(src):
@@ -223,10 +242,16 @@ func (t *tr) expr(e ast.Expr) string {
 					full := pn.Imported().Path() + "." + sel.Sel.Name
 					switch full {
 					case "math.Sqrt":
-						return "(Real.sqrt " + t.expr(x.Args[0]) + ")"
+						return t.rnd(e, "(Real.sqrt "+t.expr(x.Args[0])+")")
+					}
+					if s, ok := t.mathCall(full, x); ok {
+						return s
 					}
 					return t.fail(e, "call %s", full)
 				}
+			}
+			if s, ok := t.durationMethod(sel, x); ok {
+				return s
 			}
 		}
 		if id, ok := x.Fun.(*ast.Ident); ok {
@@ -248,6 +273,13 @@ func (t *tr) expr(e ast.Expr) string {
 				}
 			}
 			if ln, ok := t.known[id.Name]; ok {
+				var args []string
+				for _, a := range x.Args {
+					args = append(args, t.expr(a))
+				}
+				return "(" + ln + " " + strings.Join(args, " ") + ")"
+			}
+			if ln, ok := t.helperFunc(id); ok {
 				var args []string
 				for _, a := range x.Args {
 					args = append(args, t.expr(a))
@@ -310,6 +342,15 @@ func (t *tr) block(stmts []ast.Stmt, ind string) string {
 			case token.DEFINE, token.ASSIGN:
 			case token.ADD_ASSIGN:
 				rhs = "(" + mangle(id.Name) + " + " + rhs + ")"
+			case token.SUB_ASSIGN:
+				rhs = "(" + mangle(id.Name) + " - " + rhs + ")"
+			case token.MUL_ASSIGN:
+				rhs = "(" + mangle(id.Name) + " * " + rhs + ")"
+			case token.QUO_ASSIGN:
+				if !isFloat(info.TypeOf(x.Lhs[0])) {
+					return ind + t.fail(s, "assign op %s on a non-float", x.Tok)
+				}
+				rhs = "(" + mangle(id.Name) + " / " + rhs + ")"
 			default:
 				return ind + t.fail(s, "assign op %s", x.Tok)
 			}
@@ -331,6 +372,12 @@ func (t *tr) block(stmts []ast.Stmt, ind string) string {
 					return ind + "let " + mangle(vs.Names[0].Name) + " : List Sched := []\n" + t.block(rest, ind)
 				}
 			}
+			// var x T = e   /   var x = e   (scalars; additive: was "unsupported: decl")
+			if len(vs.Names) == 1 && len(vs.Values) == 1 {
+				if ty := info.TypeOf(vs.Names[0]); ty != nil && (isFloat(ty) || isInt(ty) || isBool(ty)) {
+					return ind + "let " + mangle(vs.Names[0].Name) + " : " + t.leanType(ty, s) + " := " + t.expr(vs.Values[0]) + "\n" + t.block(rest, ind)
+				}
+			}
 		}
 		return ind + t.fail(s, "decl")
 	case *ast.IfStmt:
@@ -347,6 +394,10 @@ func (t *tr) block(stmts []ast.Stmt, ind string) string {
 		}
 		if endsInReturn(x.Body.List) && x.Else == nil {
 			return ind + "if " + c + " then\n" + t.block(x.Body.List, ind+"  ") + "\n" + ind + "else\n" + t.block(rest, ind+"  ")
+		}
+		// if c { …; return a } else { …; return b } as the last statement (additive: was "unsupported: if shape")
+		if eb, ok := x.Else.(*ast.BlockStmt); ok && endsInReturn(x.Body.List) && endsInReturn(eb.List) && len(rest) == 0 {
+			return ind + "if " + c + " then\n" + t.block(x.Body.List, ind+"  ") + "\n" + ind + "else\n" + t.block(eb.List, ind+"  ")
 		}
 		// if c { v = e } (single assignment, no else)
 		if len(x.Body.List) == 1 && x.Else == nil {
@@ -404,6 +455,37 @@ func (t *tr) block(stmts []ast.Stmt, ind string) string {
 		return ind + "let " + target + " : List Sched := " + target + " ++ (" + loop + " " + t.expr(init.Rhs[0]) + " " + t.expr(cond.Y) + " " + t.expr(post.Rhs[0]) +
 			").flatMap (fun " + mangle(iv.Name) + " => [" + strings.Join(els, ", ") + "])\n" + t.block(rest, ind)
 	case *ast.SwitchStmt:
+		if x.Init == nil && x.Tag == nil {
+			// switch { case c1: …return; case c2: …return; default: … } -> if c1 then … else if c2 then … else default/rest
+			// (additive: a tagless switch was "unsupported: switch shape")
+			var b strings.Builder
+			var def []ast.Stmt
+			for _, cs := range x.Body.List {
+				cc := cs.(*ast.CaseClause)
+				if cc.List == nil {
+					def = cc.Body
+					continue
+				}
+				if len(cc.Body) == 0 {
+					return ind + t.fail(s, "switch case without a body")
+				}
+				if _, ok := cc.Body[len(cc.Body)-1].(*ast.ReturnStmt); !ok {
+					return ind + t.fail(s, "switch case that does not end in return")
+				}
+				var conds []string
+				for _, v := range cc.List {
+					conds = append(conds, t.expr(v))
+				}
+				b.WriteString(ind + "if " + strings.Join(conds, " ∨ ") + " then\n" + t.block(cc.Body, ind+"  ") + "\n" + ind + "else\n")
+			}
+			if def == nil {
+				def = rest
+			} else if len(rest) > 0 {
+				return ind + t.fail(s, "switch with a default followed by more statements")
+			}
+			b.WriteString(t.block(def, ind+"  "))
+			return b.String()
+		}
 		if x.Init != nil || x.Tag == nil {
 			return ind + t.fail(s, "switch shape")
 		}
@@ -431,6 +513,101 @@ func (t *tr) block(stmts []ast.Stmt, ind string) string {
 		return b.String()
 	}
 	return ind + t.fail(s, "%T", s)
+}
+
+// mathCall: further functions of package math over ℝ (exact). Additive: every one of these was a translation error before.
+func (t *tr) mathCall(full string, x *ast.CallExpr) (string, bool) {
+	arg := func(i int) string { return t.expr(x.Args[i]) }
+	switch {
+	case full == "math.Floor" && len(x.Args) == 1:
+		return "((⌊" + arg(0) + "⌋ : ℤ) : ℝ)", true
+	case full == "math.Ceil" && len(x.Args) == 1:
+		return "((⌈" + arg(0) + "⌉ : ℤ) : ℝ)", true
+	case full == "math.Trunc" && len(x.Args) == 1:
+		return "(((Go.f2i " + arg(0) + ") : ℤ) : ℝ)", true
+	case full == "math.Round" && len(x.Args) == 1:
+		// half away from zero
+		a := arg(0)
+		return "(((if (0 : ℝ) ≤ " + a + " then ⌊" + a + " + 1 / 2⌋ else ⌈" + a + " - 1 / 2⌉) : ℤ) : ℝ)", true
+	case full == "math.Abs" && len(x.Args) == 1:
+		return "|" + arg(0) + "|", true
+	case full == "math.Max" && len(x.Args) == 2:
+		return "(max " + arg(0) + " " + arg(1) + ")", true
+	case full == "math.Min" && len(x.Args) == 2:
+		return "(min " + arg(0) + " " + arg(1) + ")", true
+	case full == "math.Pow" && len(x.Args) == 2:
+		// only a constant natural exponent
+		if tv, ok := t.pkg.TypesInfo.Types[x.Args[1]]; ok && tv.Value != nil {
+			if v := constant.ToInt(tv.Value); v.Kind() == constant.Int {
+				if n, ok := constant.Int64Val(v); ok && n >= 0 && n <= 16 {
+					return fmt.Sprintf("(%s ^ (%d : ℕ))", arg(0), n), true
+				}
+			}
+		}
+	}
+	return "", false
+}
+
+// durationMethod: d.Seconds() etc. on a time.Duration (ℤ ns): the float-valued ones are exact quotients over ℝ, the
+// integer-valued ones T-divisions. Additive: a method call was a translation error before.
+func (t *tr) durationMethod(sel *ast.SelectorExpr, x *ast.CallExpr) (string, bool) {
+	ty := t.pkg.TypesInfo.TypeOf(sel.X)
+	if ty == nil || types.TypeString(ty, nil) != "time.Duration" || len(x.Args) != 0 {
+		return "", false
+	}
+	d := t.expr(sel.X)
+	switch sel.Sel.Name {
+	case "Nanoseconds":
+		return d, true
+	case "Microseconds":
+		return "(Go.tdiv " + d + " (1000 : ℤ))", true
+	case "Milliseconds":
+		return "(Go.tdiv " + d + " (1000000 : ℤ))", true
+	case "Seconds":
+		return "(((" + d + " : ℤ) : ℝ) / (1000000000 : ℝ))", true
+	case "Minutes":
+		return "(((" + d + " : ℤ) : ℝ) / (60000000000 : ℝ))", true
+	case "Hours":
+		return "(((" + d + " : ℤ) : ℝ) / (3600000000000 : ℝ))", true
+	}
+	return "", false
+}
+
+// helperFunc: a call of a package-level function of the same package that is not one of the area's listed functions
+// (e.g. a helper extracted by a refactoring). It is translated on demand like a listed one, under the Lean name
+// `aux_<name>`, and emitted BEFORE the function that was being translated; t.auxNames lets the area's `extra` emitter
+// publish the names (area schedule: tactic macro `schedule_aux_unfold`). Additive: such a call was a translation error.
+func (t *tr) helperFunc(id *ast.Ident) (string, bool) {
+	obj, ok := t.pkg.TypesInfo.Uses[id].(*types.Func)
+	if !ok || obj.Pkg() != t.pkg.Types {
+		return "", false
+	}
+	fd := findFunc(t.pkg, id.Name)
+	if fd == nil || fd.Body == nil || fd.Type.Results == nil || len(fd.Type.Results.List) != 1 {
+		return "", false
+	}
+	if t.translating == nil {
+		t.translating = map[string]bool{}
+	}
+	if t.translating[id.Name] {
+		return "", false // recursion
+	}
+	name := "aux_" + id.Name
+	call := name
+	if t.round {
+		name += "_fl"
+		call = name + " fl"
+	}
+	t.translating[id.Name] = true
+	text := t.funcDecl(fd, name)
+	delete(t.translating, id.Name)
+	if t.round {
+		text = strings.Replace(text, "def "+name+" ", "def "+name+" (fl : ℝ → ℝ) ", 1)
+	}
+	t.known[id.Name] = call
+	t.aux = append(t.aux, text)
+	t.auxNames = append(t.auxNames, name)
+	return call, true
 }
 
 func (t *tr) funcDecl(fd *ast.FuncDecl, leanName string) string {
@@ -521,7 +698,13 @@ func main() {
 			t.errs = append(t.errs, "function "+f+" not found in "+a.pkgPath)
 			continue
 		}
-		b.WriteString(t.funcDecl(fd, f))
+		text := t.funcDecl(fd, f)
+		for _, a := range t.aux { // helpers translated on demand while translating f
+			b.WriteString(a)
+			b.WriteString("\n")
+		}
+		t.aux = nil
+		b.WriteString(text)
 		b.WriteString("\n")
 	}
 	if len(a.funcs) > 0 {
